@@ -11,7 +11,7 @@
 (***************************************************************************)
 EXTENDS GateDefs, TLC, Json
 
-CONSTANTS MaxQ, MaxLen, Mode, Emitting       \* Mode: "basis" (all X-subset circuits) | "super"
+CONSTANTS MaxQ, MaxLen, Mode, Emitting       \* Mode: "basis" (all X-subset circuits) | "super" | "perm"
 VARIABLES prog, n, psi, ev, gm
 vars == <<prog, n, psi, ev, gm>>
 ViewNoGm == <<prog, n, psi, ev>>
@@ -30,7 +30,12 @@ Init == /\ gm = GMTab /\ prog = <<>> /\ n \in 1..MaxQ /\ psi = Ket0(n) /\ ev = "
 LastX == IF prog = <<>> THEN -1 ELSE prog[Len(prog)].qs[1]
 AppendG(name, qs) == /\ prog' = prog \o <<Step(name, qs)>> /\ psi' = MApply(Lift(GM(name), qs, n), psi)
                     /\ ev' = "append" /\ UNCHANGED <<n, gm>>
+HasCCX == \E i \in 1..Len(prog) : prog[i].name = "CCX"
 Next == \/ /\ Mode = "basis" /\ \E q \in 0..(n - 1) : q > LastX /\ AppendG("X", <<q>>)
+        \* "perm": a basis state is prepared, then ONE three-qubit gate on an arbitrary ordered triple acts on it
+        \/ /\ Mode = "perm" /\ ~HasCCX
+           /\ \/ \E q \in 0..(n - 1) : q > LastX /\ AppendG("X", <<q>>)
+              \/ \E q \in 0..(n - 1) : \E r \in 0..(n - 1) : \E t \in 0..(n - 1) : q # r /\ q # t /\ r # t /\ AppendG("CCX", <<q, r, t>>)
         \/ /\ Mode = "super" /\ Len(prog) < MaxLen
            /\ \/ \E name \in {"X", "H", "RY", "S"} : \E q \in 0..(n - 1) : AppendG(name, <<q>>)
               \/ \E name \in {"CNOT", "CRY"} : \E q \in 0..(n - 1) : \E r \in 0..(n - 1) : q # r /\ AppendG(name, <<q, r>>)
